@@ -69,6 +69,7 @@ class Ctx:
         self.concolic = concolic
         self.values = values       # A2 layer: constrain angle values
         self.max_decisions = 200
+        self.recips = []           # (z3 var rho, z3 expr b): rho*b == 1 asserted, b != 0 on the path
         self.rules = []            # (z3 var v, z3 rhs): v*v == rhs is asserted; used as rewrite rule (poly.py)
         self.mods = 0
 
@@ -450,14 +451,14 @@ def _const_resolve(c, b, cands=(1, -1)):
     out = None
     from .poly import normalize_eq
     from .poly import which_zero
-    kz = which_zero(c.rules, [b.e - rv(k) for k in cands])
+    kz = which_zero(c.rules, [b.e - rv(k) for k in cands], recips=c.recips)
     if kz is not None:
         c.div_memo[key] = (cands[kz], b.e)
         c.notes.append(('divisor-resolved-nf', cands[kz]))
         return cands[kz]
-    for k in cands:
+    for k in (cands if getattr(c, 'lemma_solver', False) else ()):
         s = z3.Solver()
-        s.set('timeout', 2000)
+        s.set('timeout', 500)
         s.add(*c.assumptions)
         s.add(*c.path)
         s.add(b.e != k)
@@ -481,9 +482,22 @@ def _div(a, b):
         return Term(a.e / b.e, None, a.val / b.val)
     key = (a.e.get_id(), b.e.get_id())
     if key not in c.div_memo:
-        q = c.fresh('quo')
-        c.assumptions.append(q * b.e == a.e)
-        c.div_memo[key] = (q, a.e, b.e)
+        from .poly import exact_quotient
+        qz = exact_quotient(c.rules, a.e, b.e)
+        if qz is not None:
+            # a == quotient * b as polynomials (modulo the asserted constraints) and b != 0 on this path
+            c.div_memo[key] = (qz, a.e, b.e)
+            c.notes.append(('division-cancelled',))
+    if key not in c.div_memo:
+        # reciprocal encoding: one fresh rho per distinct divisor (rho*b == 1), a/b = a*rho; the components of
+        # v/|v| then share a single extra variable instead of one quotient variable each
+        rk = ('recip', b.e.get_id())
+        if rk not in c.div_memo:
+            rho = c.fresh('rcp')
+            c.assumptions.append(rho * b.e == 1)
+            c.recips.append((rho, b.e))
+            c.div_memo[rk] = (rho, b.e)
+        c.div_memo[key] = (a.e * c.div_memo[rk][0], a.e, b.e)
     return Term(c.div_memo[key][0])
 
 
@@ -529,7 +543,7 @@ def _sqrt(x):
     # radicands that normalise to a perfect square need no domain fork and no fresh variable
     res = _sqrt_resolve(c, x, use_solver=False)
     if res is None:
-        if (x < 0):
+        if not _is_sos(xs) and (x < 0):
             raise ValueError('math domain error')
         res = _sqrt_resolve(c, x, use_solver=True)
     if res is None:
@@ -537,8 +551,70 @@ def _sqrt(x):
         c.assumptions += [r >= 0, r * r == x.e]
         c.rules.append((r, x.e))
         res = Term(r)
+        _unify_earlier_sqrts(c, r)
+        c.fresh_sqrts = getattr(c, 'fresh_sqrts', []) + [(r, x.e)]
     c.sqrt_memo[key] = (res, xs)
     return res
+
+
+def _unify_earlier_sqrts(c, rnew):
+    """an earlier square root whose radicand equals (rnew * r_j)^2 (e.g. |a x n| once |a| is known, a _|_ n) is
+    identified with that product: the equality is a consequence (all roots are >= 0) and is both asserted and
+    used as a substitution by the normaliser"""
+    from .poly import which_zero
+    prev = list(getattr(c, 'fresh_sqrts', []))
+    done = {r[0].get_id() for r in c.rules if len(r) == 3}
+    for k, (rk, ek) in enumerate(prev):
+        if rk.get_id() in done:
+            continue
+        cands = [rnew] + [rnew * rj for j, (rj, _) in enumerate(prev) if j != k and rj.get_id() not in done]
+        z = which_zero(c.rules, [ek - g * g for g in cands], recips=())
+        if z is not None:
+            c.assumptions.append(rk == cands[z])
+            c.rules.append((rk, cands[z], 'subst'))
+            c.notes.append(('sqrt-unified', str(rk), str(cands[z])))
+            c.nlemmas = getattr(c, 'nlemmas', 0) + 1
+
+
+def _is_sos(e):
+    """syntactic sum of squares (what norm() builds): no domain fork needed for its square root"""
+    def sq(t):
+        if z3.is_rational_value(t) or z3.is_int_value(t):
+            return t.as_fraction() >= 0
+        if not z3.is_app(t):
+            return False
+        k = t.decl().kind()
+        ch = t.children()
+        if k == z3.Z3_OP_MUL:
+            nums = [x for x in ch if z3.is_rational_value(x) or z3.is_int_value(x)]
+            rest = [x for x in ch if not (z3.is_rational_value(x) or z3.is_int_value(x))]
+            if any(n.as_fraction() < 0 for n in nums):
+                return False
+            if len(rest) == 2 and rest[0].eq(rest[1]):
+                return True
+            return len(rest) == 1 and sq(rest[0])
+        if k == z3.Z3_OP_POWER:
+            ex = ch[1]
+            return (z3.is_rational_value(ex) or z3.is_int_value(ex)) and ex.as_fraction().denominator == 1 and ex.as_fraction().numerator % 2 == 0
+        if k == z3.Z3_OP_ADD:
+            return all(sq(x) for x in ch)
+        return False
+    return sq(e)
+
+
+def _abs_resolved(c, g):
+    """|g| without an If when the sign of g is provable on this path"""
+    if g.const is not None:
+        return abs(g)
+    for sign, neg in ((1, g.e < 0), (-1, g.e > 0)):
+        s = z3.Solver()
+        s.set('timeout', 1000)
+        s.add(*c.assumptions)
+        s.add(*c.path)
+        s.add(neg)
+        if str(s.check()) == 'unsat':
+            return g if sign == 1 else -g
+    return abs(g)
 
 
 def _sqrt_resolve(c, x, use_solver=True):
@@ -549,15 +625,19 @@ def _sqrt_resolve(c, x, use_solver=True):
     from .poly import normalize_eq
     hints = [Term.lift(1), Term.lift(0)] + list(getattr(c, 'sqrt_hints', []))
     if not use_solver:
-        # does the radicand normalise to g*g modulo the asserted sphere constraints?
+        # does the radicand normalise to g*g modulo the asserted sphere constraints?  Candidates: the harness
+        # hints, 0, 1, earlier square roots and their pairwise products (|a x n| = |a||n| for a _|_ n)
         from .poly import which_zero
-        k = which_zero(c.rules, [x.e - g.e * g.e for g in hints])
+        prev = [v[0] for v in c.sqrt_memo.values() if isinstance(v[0], Term) and v[0].const is None]
+        hints = hints + prev + [prev[i] * prev[j] for i in range(len(prev)) for j in range(i, len(prev))]
+        k = which_zero(c.rules, [x.e - g.e * g.e for g in hints], recips=c.recips)
         if k is not None:
             c.notes.append(('sqrt-resolved-nf', str(hints[k])[:60]))
             c.nlemmas = getattr(c, 'nlemmas', 0) + 1
-            return abs(hints[k])
+            return _abs_resolved(c, hints[k])
         return None
-    for g in hints:
+    # the solver stage is reserved for hints the harness registered explicitly
+    for g in list(getattr(c, 'sqrt_hints', [])):
         s = z3.Solver()
         s.set('timeout', 2000)
         s.add(*c.assumptions)
@@ -566,7 +646,7 @@ def _sqrt_resolve(c, x, use_solver=True):
         if str(s.check()) == 'unsat':
             c.notes.append(('sqrt-resolved', str(g)[:60]))
             c.nlemmas = getattr(c, 'nlemmas', 0) + 1
-            return abs(g)
+            return _abs_resolved(c, g)
     return None
 
 
